@@ -852,7 +852,7 @@ func nonNilErrReturned(fn *ssa.Function, errParam *ssa.Parameter) bool {
 		for blk := range reachableBlocks([]*ssa.BasicBlock{nn}, nil) {
 			if ret, ok := blk.Instrs[len(blk.Instrs)-1].(*ssa.Return); ok && (nn == blk || nn.Dominates(blk)) {
 				n++
-				if isNilConst(ret.Results[len(ret.Results)-1]) {
+				if isNilConst(returnedValue(ret, len(ret.Results)-1)) {
 					all = false
 				}
 			}
